@@ -122,6 +122,9 @@ pub enum Driver {
     HandRecord,
     /// hand-written loop around a generator that plays a recorded stream back
     HandPlayback,
+    /// hand-written loop, one `ScriptRng` per round; in round `round` its answers start with
+    /// the script handed in through `stream` (a default stream with <= d extreme deviations)
+    Scripted { round: usize, rounds: usize },
 }
 
 /// records every word the wrapped generator hands out
@@ -222,6 +225,13 @@ fn drive_single<A: AgentSet>(p: &Point, agents: &mut A, d: Driver, stream: &mut 
                 return (0, u64::MAX);
             }
         }
+        Driver::Scripted { round, rounds } => {
+            for r in 0..rounds {
+                let mut rng = ScriptRng::new(if r == round { stream.clone() } else { vec![] }, p.seed + r as u64);
+                agents.update(&mut env, &mut rng);
+                env.step(&mut rng);
+            }
+        }
     }
     digest_env(&env)
 }
@@ -250,6 +260,13 @@ fn drive_multi<A: MarketAgentSet>(p: &Point, agents: &mut A, d: Driver, stream: 
             }
             if rng.pos != stream.len() {
                 return (0, u64::MAX);
+            }
+        }
+        Driver::Scripted { round, rounds } => {
+            for r in 0..rounds {
+                let mut rng = ScriptRng::new(if r == round { stream.clone() } else { vec![] }, p.seed + r as u64);
+                agents.update(&mut env, &mut rng);
+                env.step(&mut rng);
             }
         }
     }
@@ -339,8 +356,296 @@ fn spawn_child(tier: &str, progress: bool) -> Result<BTreeMap<usize, String>, St
     Ok(m)
 }
 
+// ---- step-count sweep: every run length up to a bound, both progress-bar branches -----------
+
+pub fn sweep_points(t: bool) -> Vec<Point> {
+    let mut counts: Vec<u64> = (0..=(if t { 300 } else { 130 })).collect();
+    counts.extend([255, 256, 257, 511, 512, 513]);
+    if t {
+        counts.extend([1000, 1023, 1024, 1025, 2047, 2048, 2049]);
+    }
+    let mut v = Vec::new();
+    for comp in [0usize, 5, 6] {
+        for multi in [false, true] {
+            for &steps in &counts {
+                v.push(Point { comp, multi, seed: 3, steps, tick: 1, step_size: 100 });
+            }
+        }
+    }
+    v
+}
+
+fn par_digests(points: &[Point], d: Driver) -> Vec<Result<(u64, u64), String>> {
+    let next = std::sync::atomic::AtomicUsize::new(0);
+    let res = std::sync::Mutex::new(Vec::new());
+    std::thread::scope(|s| {
+        for _ in 0..util::n_threads() {
+            s.spawn(|| loop {
+                let i = next.fetch_add(1, std::sync::atomic::Ordering::Relaxed);
+                if i >= points.len() {
+                    break;
+                }
+                let mut stream = Vec::new();
+                let r = util::subject(|| run_point(&points[i], d, &mut stream));
+                res.lock().unwrap().push((i, r));
+            });
+        }
+    });
+    let mut v = res.into_inner().unwrap();
+    v.sort_by_key(|x| x.0);
+    v.into_iter().map(|x| x.1).collect()
+}
+
+pub fn child_sweep_main(tier: &str, progress: bool) -> i32 {
+    let pts = sweep_points(tier == "thorough");
+    for (i, r) in par_digests(&pts, Driver::Runner { progress }).into_iter().enumerate() {
+        match r {
+            Ok((d, _)) => println!("{} {}", i, d),
+            Err(m) => println!("{} PANIC {}", i, m.replace('\n', " ")),
+        }
+    }
+    0
+}
+
+fn spawn_child_mode(mode: &str, tier: &str, extra: &[&str]) -> Result<BTreeMap<usize, String>, String> {
+    let exe = std::env::current_exe().map_err(|e| e.to_string())?;
+    let out = std::process::Command::new(exe)
+        .arg(mode)
+        .arg(tier)
+        .args(extra)
+        .stderr(std::process::Stdio::null())
+        .output()
+        .map_err(|e| e.to_string())?;
+    if !out.status.success() {
+        return Err(format!("child exited with {:?}", out.status));
+    }
+    let mut m = BTreeMap::new();
+    for l in String::from_utf8_lossy(&out.stdout).lines() {
+        let mut it = l.splitn(2, ' ');
+        if let (Some(i), Some(d)) = (it.next(), it.next()) {
+            if let Ok(i) = i.parse::<usize>() {
+                m.insert(i, d.to_string());
+            }
+        }
+    }
+    Ok(m)
+}
+
+/// Every run length 0..=N (and the neighbours of larger powers of two): the library runner in a
+/// fresh process with the progress bar off and on must equal the hand-written loop
+/// `for _ in 0..n { agents.update; env.step }` run here.
+fn sweep_part(out: &mut Outcome, tier: &str) {
+    let pts = sweep_points(tier == "thorough");
+    let hand = par_digests(&pts, Driver::HandRecord);
+    let kids: Vec<(bool, Result<BTreeMap<usize, String>, String>)> = std::thread::scope(|s| {
+        let hs: Vec<_> = [false, true]
+            .into_iter()
+            .map(|pr| s.spawn(move || (pr, spawn_child_mode("c09-child-sweep", tier, &[if pr { "1" } else { "0" }]))))
+            .collect();
+        hs.into_iter().map(|h| h.join().unwrap()).collect()
+    });
+    let mut distinct = BTreeSet::new();
+    for (i, p) in pts.iter().enumerate() {
+        let replay = json!({"composition": COMPOSITIONS[p.comp], "multi_asset": p.multi, "seed": p.seed, "steps": p.steps, "tick": p.tick, "step_size": p.step_size});
+        let h = match &hand[i] {
+            Ok((d, _)) => *d,
+            Err(m) => {
+                out.fail_other(&format!("determinism/abort/{}", util::panic_sig(m)), format!("hand-written loop, {} steps: {}", p.steps, m), replay);
+                continue;
+            }
+        };
+        distinct.insert(h);
+        for (pr, kid) in &kids {
+            match kid {
+                Err(e) => {
+                    if i == 0 {
+                        out.machinery_errors.push(format!("sweep child failed: {}", e));
+                    }
+                }
+                Ok(m) => match m.get(&i) {
+                    None => out.machinery_errors.push(format!("sweep child printed nothing for point {}", i)),
+                    Some(d) if d.parse::<u64>().ok() == Some(h) => {}
+                    Some(d) => out.fail_other(
+                        &format!("determinism/run-length/{}", if *pr { "progress-bar-on" } else { "progress-bar-off" }),
+                        format!("{} steps: the library runner (fresh process, progress bar {}) gave {} but the hand-written update/step loop gave digest {}", p.steps, if *pr { "on" } else { "off" }, d, h),
+                        replay.clone(),
+                    ),
+                },
+            }
+        }
+    }
+    out.add_u64("states", pts.len() as u64 * 3);
+    out.add_u64("transitions", pts.iter().map(|p| p.steps).sum::<u64>() * 3);
+    out.add_u64("traces_validated_against_impl", pts.len() as u64 * 3);
+    out.set(
+        "run_length_sweep",
+        json!({"points": pts.len(), "step_counts": format!("every n in 0..={} plus the neighbours of 256, 512{}", if tier == "thorough" { 300 } else { 130 }, if tier == "thorough" { ", 1000, 1024, 2048" } else { "" }),
+               "compositions": [COMPOSITIONS[0], COMPOSITIONS[5], COMPOSITIONS[6]], "environments": ["Env", "MarketEnv<2,10>"],
+               "drivers": ["hand-written loop (this process)", "library runner, fresh process, progress bar off", "library runner, fresh process, progress bar on"],
+               "distinct_outputs": distinct.len()}),
+    );
+}
+
+// ---- model-checking part: every generator stream within a deviation bound -------------------
+
+const SCRIPT_ROUNDS: usize = 4;
+
+/// (jobs, scripts): a job is (grid point, round whose generator is scripted)
+pub fn scripted_space(t: bool) -> (Vec<(Point, usize)>, Vec<Vec<Ans>>) {
+    let mut jobs = Vec::new();
+    for comp in 0..7 {
+        for multi in [false, true] {
+            for tick in [1u32, 2] {
+                for round in 0..SCRIPT_ROUNDS {
+                    jobs.push((Point { comp, multi, seed: 1, steps: SCRIPT_ROUNDS as u64, tick, step_size: 100 }, round));
+                }
+            }
+        }
+    }
+    let values = crate::agentsx::extreme_values();
+    let scripts = if t {
+        crate::agentsx::scripts_with_deviations(1, 12, &values, 2)
+    } else {
+        crate::agentsx::scripts_with_deviations(1, 16, &values, 1)
+    };
+    (jobs, scripts)
+}
+
+/// digest of every (job, script) execution, in index order; `Err` = the library panicked
+pub fn scripted_digests(t: bool) -> Vec<Result<(u64, u64), String>> {
+    let (jobs, scripts) = scripted_space(t);
+    let total = jobs.len() * scripts.len();
+    let next = std::sync::atomic::AtomicUsize::new(0);
+    let res: std::sync::Mutex<Vec<(usize, Vec<Result<(u64, u64), String>>)>> = std::sync::Mutex::new(Vec::new());
+    std::thread::scope(|s| {
+        for _ in 0..util::n_threads() {
+            s.spawn(|| loop {
+                let j = next.fetch_add(1, std::sync::atomic::Ordering::Relaxed);
+                if j >= jobs.len() {
+                    break;
+                }
+                let (p, round) = &jobs[j];
+                let mut v = Vec::with_capacity(scripts.len());
+                for sc in &scripts {
+                    let mut stream = sc.clone();
+                    v.push(util::subject(|| run_point(p, Driver::Scripted { round: *round, rounds: SCRIPT_ROUNDS }, &mut stream)));
+                }
+                res.lock().unwrap().push((j, v));
+            });
+        }
+    });
+    let mut parts = res.into_inner().unwrap();
+    parts.sort_by_key(|x| x.0);
+    let out: Vec<_> = parts.into_iter().flat_map(|x| x.1).collect();
+    assert_eq!(out.len(), total);
+    out
+}
+
+pub fn child_scripted_main(tier: &str) -> i32 {
+    for (i, r) in scripted_digests(tier == "thorough").into_iter().enumerate() {
+        match r {
+            Ok((d, _)) => println!("{} {}", i, d),
+            Err(m) => println!("{} PANIC {}", i, m.replace('\n', " ")),
+        }
+    }
+    0
+}
+
+fn spawn_child_scripted(tier: &str) -> Result<BTreeMap<usize, String>, String> {
+    let exe = std::env::current_exe().map_err(|e| e.to_string())?;
+    let out = std::process::Command::new(exe)
+        .arg("c09-child-scripted")
+        .arg(tier)
+        .stderr(std::process::Stdio::null())
+        .output()
+        .map_err(|e| e.to_string())?;
+    if !out.status.success() {
+        return Err(format!("child exited with {:?}", out.status));
+    }
+    let mut m = BTreeMap::new();
+    for l in String::from_utf8_lossy(&out.stdout).lines() {
+        let mut it = l.splitn(2, ' ');
+        if let (Some(i), Some(d)) = (it.next(), it.next()) {
+            if let Ok(i) = i.parse::<usize>() {
+                m.insert(i, d.to_string());
+            }
+        }
+    }
+    Ok(m)
+}
+
+/// Every generator stream that deviates from the default stream in at most d of the first N
+/// answers of one round (answers from the extreme-value set), for every composition: the run is
+/// executed twice in this process and once in a fresh child process; all three must agree.
+fn scripted_part(out: &mut Outcome, tier: &str) {
+    let t = tier == "thorough";
+    let (jobs, scripts) = scripted_space(t);
+    let a = scripted_digests(t);
+    let b = scripted_digests(t);
+    let kid = spawn_child_scripted(tier);
+    let mut distinct: BTreeSet<u64> = BTreeSet::new();
+    let mut steps = 0u64;
+    for (i, ra) in a.iter().enumerate() {
+        let (p, round) = &jobs[i / scripts.len()];
+        let sc = &scripts[i % scripts.len()];
+        let replay = json!({"composition": COMPOSITIONS[p.comp], "multi_asset": p.multi, "tick": p.tick, "step_size": p.step_size, "rounds": SCRIPT_ROUNDS,
+            "scripted_round": round, "fallback_stream_seed_of_round_r": format!("{}+r", p.seed), "script": crate::agentsx::ans_json(sc)});
+        steps += SCRIPT_ROUNDS as u64;
+        match ra {
+            Err(m) => out.fail_other(&format!("determinism/abort/{}", util::panic_sig(m)), format!("scripted stream: {}", m), replay.clone()),
+            Ok((da, _)) => {
+                distinct.insert(*da);
+                match &b[i] {
+                    Ok((db, _)) if db == da => {}
+                    other => out.fail_other(
+                        "determinism/scripted-stream/second-run-same-process",
+                        format!("same scripted generator stream, different output: first run digest {}, second run {:?}", da, other),
+                        replay.clone(),
+                    ),
+                }
+                match &kid {
+                    Ok(m) => match m.get(&i) {
+                        Some(d) if d.parse::<u64>().ok() == Some(*da) => {}
+                        Some(d) => out.fail_other(
+                            "determinism/scripted-stream/other-process",
+                            format!("same scripted generator stream, different output in a fresh process: here digest {}, child {}", da, d),
+                            replay.clone(),
+                        ),
+                        None => out.machinery_errors.push(format!("scripted child printed nothing for execution {}", i)),
+                    },
+                    Err(e) => {
+                        if i == 0 {
+                            out.machinery_errors.push(format!("scripted child process failed: {}", e))
+                        }
+                    }
+                }
+            }
+        }
+    }
+    out.add_u64("states", a.len() as u64 * 3);
+    out.add_u64("transitions", steps * 3);
+    out.add_u64("traces_validated_against_impl", a.len() as u64 * 3);
+    out.set(
+        "scripted_streams",
+        json!({
+            "compositions": 7, "environments": ["Env", "MarketEnv<2,10>"], "ticks": [1, 2], "rounds": SCRIPT_ROUNDS,
+            "scripts_per_round": scripts.len(), "deviation_bound": if t { 2 } else { 1 }, "scripted_draws": if t { 12 } else { 16 },
+            "executions_per_stream": "2 in this process + 1 in a fresh child process", "streams": a.len(),
+            "distinct_outputs": distinct.len(),
+            "rule": "one ScriptRng per round (update + step); in the scripted round its first N answers are the default stream with <= d answers replaced by an extreme word (0, all-ones, sign/threshold-adjacent words), afterwards the default stream; every such stream is executed three times and all outputs must be bit-identical",
+        }),
+    );
+    if distinct.len() < 10 {
+        out.machinery_errors.push(format!("vacuous: scripted streams produced only {} distinct outputs", distinct.len()));
+    }
+    let k = scripts.len() / 2;
+    out.push("samples", json!({"composition": COMPOSITIONS[5], "multi_asset": false, "tick": 2, "scripted_round": 1, "script": crate::agentsx::ans_json(&scripts[k])}));
+}
+
 pub fn c09(tier: &str) -> i32 {
-    let mut out = Outcome::new("C09", tier, "exploration");
+    let mut out = Outcome::new("C09", tier, "model_checking");
+    scripted_part(&mut out, tier);
+    sweep_part(&mut out, tier);
     let t = tier == "thorough";
     let g = grid(t);
     // children first (they run concurrently with nothing else; each is single-threaded)
@@ -452,13 +757,15 @@ pub fn c09(tier: &str) -> i32 {
     out.set("distinct_nontrivial", json!(nontrivial.len()));
     out.set("rule", json!("grid = 7 agent compositions (derive macros, incl. a nested set) x {Env, MarketEnv<2>} x seeds x step counts x tick {1,2,5} x step size {100, 10^6}; each point is run by: library runner twice in-process, 3 child processes (progress bar off/on/off), hand-written loop around a recording Xoroshiro128**, and a play-back generator fed the recorded words; all digests (orders, trades, level-2 history, per-step volumes, clock) must agree. A point is non-trivial if it produced more than the 2 seed orders; distinct = distinct digests."));
     out.set("grid_points", json!(g.len()));
-    out.set("exhaustive", json!(false));
     for s in samples {
         out.push("samples", s);
     }
     if nontrivial.len() < 2 {
         out.machinery_errors.push("vacuous: fewer than two non-trivial distinct runs".into());
     }
-    out.assumptions = vec!["seeds are an unbounded domain: the grid enumerates a finite set of them (claimed as exploration, not model checking)".into()];
+    out.assumptions = vec![
+        "generator streams are enumerated within a deviation bound (see scripted_streams); beyond the scripted prefix the default SplitMix64 stream continues".into(),
+        "the seed grid (evaluations / distinct_nontrivial / grid_points) enumerates a finite list of seeds of an unbounded domain".into(),
+    ];
     out.finish()
 }
